@@ -639,6 +639,28 @@ pub fn e2_spec(id: &str, tier: &str) -> Option<crate::e2::E2Spec> {
             }
             Some(E2Spec { id: "C21", scens, cap_s: cap, rule: RULE_E2, assumptions: e2_assumptions() })
         }
+        #[cfg(feature = "memchk")]
+        "C23" => {
+            // the schedule sets of the concurrency properties, executed under the allocator
+            // monitor; only memory verdicts are reported here
+            let mut scens = Vec::new();
+            for id in ["C16", "C17", "C18", "C24", "C08"] {
+                if let Some(sp) = e2_spec(id, "quick") {
+                    for (i, mut sc) in sp.scens.into_iter().enumerate() {
+                        if quick && i % 2 == 1 {
+                            continue;
+                        }
+                        sc.name = format!("{id}/{}", sc.name);
+                        scens.push(sc);
+                    }
+                }
+            }
+            Some(E2Spec { id: "C23", scens, cap_s: cap, rule: RULE_E2, assumptions: {
+                let mut a = e2_assumptions();
+                a.push("memory errors are detected through the allocator monitor (red zones, poison, quarantine) and through revalidation of the references each thread received, see the sequential part".into());
+                a
+            } })
+        }
         "C22" => {
             // second half of C22: the panicking computation with a second thread that requests
             // the same or a dependent function; every injection point x every schedule
@@ -814,7 +836,7 @@ pub fn meta(id: &str, tier: &str) -> Option<Meta> {
             pin_workers: false,
         });
     }
-    #[cfg(feature = "memchk")]
+    #[cfg(all(feature = "memchk", not(feature = "conc")))]
     if id == "C23" {
         let b = c23_borrowed(tier);
         return Some(Meta {
@@ -865,7 +887,7 @@ pub fn meta(id: &str, tier: &str) -> Option<Meta> {
         if let Some(s) = e2_spec(id, tier) {
             return Some(Meta {
                 engine: "E2 ctl (preemption-bounded exhaustive schedule exploration of the real code on OS threads)",
-                config: "conc",
+                config: if cfg!(feature = "memchk") { "memconc" } else { "conc" },
                 rule: s.rule,
                 bounds: json!({
                     "scenarios": s.scens.iter().map(|x| json!({"name": x.name, "threads": x.threads.len(), "preemption_bound": x.bound})).collect::<Vec<_>>(),
@@ -881,14 +903,14 @@ pub fn meta(id: &str, tier: &str) -> Option<Meta> {
     None
 }
 
-#[cfg(feature = "memchk")]
+#[cfg(all(feature = "memchk", not(feature = "conc")))]
 fn c23_cap(tier: &str) -> u64 {
     if tier == "quick" { 45 } else { 2400 }
 }
 
 /// History sets borrowed by C23: the quick sets of the sequential properties whose histories
 /// evict, delete structs, reclaim interned values, iterate cycles, cancel and panic.
-#[cfg(feature = "memchk")]
+#[cfg(all(feature = "memchk", not(feature = "conc")))]
 fn c23_borrowed(tier: &str) -> Vec<crate::e1mem::Borrowed> {
     let quick = tier == "quick";
     let mut v = Vec::new();
@@ -911,7 +933,7 @@ fn c23_borrowed(tier: &str) -> Vec<crate::e1mem::Borrowed> {
 }
 
 pub fn worker(id: &str, tier: &str, w: usize, n: usize) -> WorkerOut {
-    #[cfg(feature = "memchk")]
+    #[cfg(all(feature = "memchk", not(feature = "conc")))]
     if id == "C23" {
         return crate::e1mem::run_worker(&c23_borrowed(tier), w, n, c23_cap(tier));
     }
@@ -971,6 +993,46 @@ fn rerun_fault(v: &Viol) -> Option<Option<(String, String, usize)>> {
     Some(e1::run_fault_case(&prog, &case.history, inject, &mut st).0)
 }
 
+/// Run one C23 case in this process; exit status of the process = verdict (0 holds, 1 violation).
+#[cfg(feature = "memchk")]
+pub fn run_case_inproc(v: &Viol) -> i32 {
+    match v.case.get("engine").and_then(|e| e.as_str()) {
+        #[cfg(not(feature = "conc"))]
+        Some("e1-mem") => match crate::e1mem::rerun(&v.case) {
+            Some(Some((oracle, msg, step))) => {
+                println!("CASE-VIOLATION oracle={oracle} step={step}: {msg}");
+                1
+            }
+            Some(None) => 0,
+            None => 2,
+        },
+        #[cfg(feature = "conc")]
+        Some("e2-mem") => {
+            // either one recorded schedule, or (crash attribution) a whole scenario partition
+            if v.case.get("schedule").is_some() {
+                match crate::e2::replay_case(&v.case, false, Some("memory-")) {
+                    Some(Some(m)) => {
+                        println!("CASE-VIOLATION oracle={}", m.split(' ').next().unwrap_or("memory"));
+                        1
+                    }
+                    Some(None) => 0,
+                    None => 2,
+                }
+            } else {
+                let Some(sc) = v.case.get("scenario").and_then(|s| serde_json::from_value::<crate::e2::Scen>(s.clone()).ok()) else { return 2 };
+                let part: Vec<usize> = v.case.get("part").and_then(|p| serde_json::from_value(p.clone()).ok()).unwrap_or(vec![0, 1]);
+                let spec = crate::e2::E2Spec { id: "C23", scens: vec![sc], cap_s: 600, rule: "", assumptions: vec![] };
+                let out = crate::e2::run_worker(&spec, part[0], part[1]);
+                if out.viols.is_empty() { 0 } else {
+                    println!("CASE-VIOLATION oracle={}", out.viols[0].signature);
+                    1
+                }
+            }
+        }
+        _ => 2,
+    }
+}
+
 /// Run one C23 case in a child process (it may crash). Some(description) = it fails.
 #[cfg(feature = "memchk")]
 fn run_case_child(v: &Viol) -> Option<String> {
@@ -1001,7 +1063,7 @@ pub fn confirm(id: &str, v: &Viol) -> Confirm {
             _ => Confirm::NotReproduced,
         },
         #[cfg(feature = "memchk")]
-        Some("e1-mem") => match (run_case_child(v), run_case_child(v)) {
+        Some("e1-mem") | Some("e2-mem") => match (run_case_child(v), run_case_child(v)) {
             (Some(a), Some(b)) if a == b => Confirm::Reproduced,
             _ => Confirm::NotReproduced,
         },
@@ -1025,8 +1087,8 @@ pub fn confirm(id: &str, v: &Viol) -> Confirm {
         },
         #[cfg(feature = "conc")]
         Some("e2") => {
-            let a = crate::e2::replay_case(&v.case, id == "C19");
-            let b = crate::e2::replay_case(&v.case, id == "C19");
+            let a = crate::e2::replay_case(&v.case, id == "C19", if id == "C23" { Some("memory-") } else { None });
+            let b = crate::e2::replay_case(&v.case, id == "C19", if id == "C23" { Some("memory-") } else { None });
             match (a, b) {
                 (Some(Some(_)), Some(Some(_))) => Confirm::Reproduced,
                 _ => Confirm::NotReproduced,
@@ -1053,7 +1115,7 @@ pub fn replay(id: &str, path: &str) -> i32 {
             None => 2,
         },
         #[cfg(feature = "memchk")]
-        Some("e1-mem") => match run_case_child(&v) {
+        Some("e1-mem") | Some("e2-mem") => match run_case_child(&v) {
             Some(msg) => {
                 println!("VIOLATION property={id} replay={path}");
                 println!("  {msg}");
@@ -1108,7 +1170,7 @@ pub fn replay(id: &str, path: &str) -> i32 {
             None => 2,
         },
         #[cfg(feature = "conc")]
-        Some("e2") => match crate::e2::replay_case(&v.case, id == "C19") {
+        Some("e2") => match crate::e2::replay_case(&v.case, id == "C19", if id == "C23" { Some("memory-") } else { None }) {
             Some(Some(msg)) => {
                 println!("VIOLATION property={id} replay={path}");
                 println!("  {msg}");
